@@ -102,6 +102,11 @@ def get_widths2(seq: Iterable[object]) -> Dict[int, Tuple[float, Point]]:
             if r:
                 char1 = r[-1]
                 for i, (w, vx, vy) in enumerate(choplist(3, v)):
+                    if not all(isinstance(n, (int, float)) for n in (w, vx, vy)):
+                        log.warning(
+                            f"Skipping invalid vertical metrics {(w, vx, vy)!r}"
+                        )
+                        continue
                     widths[cast(int, char1) + i] = (w, (vx, vy))
                 r = []
         elif isinstance(v, (int, float)):  # == utils.isnumber(v)
